@@ -167,7 +167,7 @@ pub const ASCII_CHARS: &[char] = &['a', 'b', 'c', 'x', '0', '1', '-', '_', '.', 
 pub const STR_CLASSES: &[&str] = &[
     "[a-c]", "[ac]", "[a-ce-g]", "[a-cx-z0]", "[^a]", "[^a-c]", "\\d", "\\w", "\\s", "\\p{Greek}", ".", "(?s:.)", "[0-9]",
     "[a-z]", "[a-zA-Z_]", "[é-λ]", "[^\\n]", "[\\x00-ac-z]", "[ab]", "[b-x]", "[^ab]", "[a-c0-1]", "[\\x00-\\x7f]", "[^\\x00-\\x7f]",
-    "[a-b]", "[x0]",
+    "[a-b]", "[x0]", "[\\x00-\\x7f&&[^a]]", "[[:ascii:]&&[^ab]]",
 ];
 pub const ASCII_CLASSES: &[&str] =
     &["[a-c]", "[ac]", "[a-ce-g]", "[a-cx-z0]", "[0-9]", "[a-z]", "[ab]", "[b-x]", "[a-c0-1]", "[a-b]", "[x0]", "[a-zA-Z_]", "[ \\n]"];
@@ -264,6 +264,28 @@ pub fn pattern_ast(cfg: &GenCfg) -> BoxedStrategy<Ast> {
         .boxed()
 }
 
+/// Bare inline flag items (`(?i)rest`, not `(?i:..)`): they apply to the rest of the pattern they stand in - and to nothing
+/// else, in particular not to the patterns compiled after it.
+pub const BARE_FLAGS: &[&str] = &["(?i)", "(?s)", "(?U)", "(?m)", "(?-u)", "(?i-u)", "(?-i)"];
+
+fn bare_flag(cfg: &GenCfg) -> BoxedStrategy<&'static str> {
+    if cfg.flags {
+        prop_oneof![7 => Just(""), 1 => select(BARE_FLAGS)].boxed()
+    } else {
+        Just("").boxed()
+    }
+}
+
+fn prefixed(lit: &LitSpec, flag: &str) -> LitSpec {
+    if lit.bytes {
+        let mut raw = flag.as_bytes().to_vec();
+        raw.extend_from_slice(&lit.raw);
+        LitSpec::bytes(raw)
+    } else {
+        LitSpec::str(format!("{flag}{}", lit.text))
+    }
+}
+
 fn keyword(cfg: &GenCfg) -> BoxedStrategy<String> {
     let chars: &'static [char] = if cfg.unicode { STR_CHARS } else { ASCII_CHARS };
     vec(select(chars), 1..=4).prop_map(|cs| cs.into_iter().collect::<String>()).boxed()
@@ -287,8 +309,8 @@ pub fn def_strategy(cfg: GenCfg) -> BoxedStrategy<DefSpec> {
                 p.ignore_case = ic;
                 p
             }),
-            5 => (pattern_ast(&cfg), prop::bool::weighted(0.08)).prop_map(|(a, ic)| {
-                let mut p = PatSpec::regex(LitSpec::str(a.text()));
+            5 => (pattern_ast(&cfg), prop::bool::weighted(0.08), bare_flag(&cfg)).prop_map(|(a, ic, fl)| {
+                let mut p = PatSpec::regex(LitSpec::str(format!("{fl}{}", a.text())));
                 p.allow_greedy = a.has_greedy_dot();
                 p.ignore_case = ic;
                 p
@@ -300,8 +322,8 @@ pub fn def_strategy(cfg: GenCfg) -> BoxedStrategy<DefSpec> {
         prop_oneof![
             2 => Just(PatSpec::regex(LitSpec::str("[ \\n]+"))),
             1 => Just(PatSpec::regex(LitSpec::str(" "))),
-            2 => pattern_ast(&cfg).prop_map(|a| {
-                let mut p = PatSpec::regex(LitSpec::str(a.text()));
+            2 => (pattern_ast(&cfg), bare_flag(&cfg)).prop_map(|(a, fl)| {
+                let mut p = PatSpec::regex(LitSpec::str(format!("{fl}{}", a.text())));
                 p.allow_greedy = a.has_greedy_dot();
                 p
             }),
@@ -666,15 +688,24 @@ pub fn literal_defs() -> BoxedStrategy<DefSpec> {
             b.priority = Some(9);
             (vec![], vec![a, b])
         }),
+        // a case-insensitive regex (as a skip or as a variant) that starts with a bare inline flag item, followed by a
+        // case-insensitive token / regex of the same literal kind: the flag item belongs to its own pattern only
+        3 => (select(BARE_FLAGS), select(vec!["(?u)", "(?i)", "(?-i)", "(?s)"]), rx.clone(), prop_oneof![2 => tok.clone(), 1 => rx.clone()], any::<bool>()).prop_map(|(fl, flb, mut r, mut t, as_skip)| {
+            r.lit = prefixed(&r.lit, if r.lit.bytes { flb } else { fl });
+            r.priority = Some(1);
+            t.priority = Some(50);
+            t.ignore_case = true;
+            if as_skip { (vec![r], vec![t]) } else { (vec![], vec![r, t]) }
+        }),
     ]
     .prop_map(|(skips, toks)| (skips, toks, None))
     .boxed();
     // ignore(case) reaches into subpattern references: the referenced text folds like the rest of the pattern
-    let with_sub = (vec(prop_oneof![4 => select(&['a', 'K', 'k', 's', 'é', 'σ', 'Σ', '\u{212A}', 'ſ', 'z', '0', '-'][..]), 1 => cased_char()], 1..=3), select(vec!["x", "", "Q"]), any::<bool>())
-        .prop_map(|(cs, pre, as_skip)| {
+    let with_sub = (vec(prop_oneof![4 => select(&['a', 'K', 'k', 's', 'é', 'σ', 'Σ', '\u{212A}', 'ſ', 'z', '0', '-'][..]), 1 => cased_char()], 1..=3), select(vec!["x", "", "Q", ""]), any::<bool>(), select(vec!["!", "", "!"]))
+        .prop_map(|(cs, pre, as_skip, post)| {
             let body: String = cs.iter().map(|c| regex_syntax::escape(&c.to_string())).collect();
-            let mut p = PatSpec::regex(LitSpec::str(format!("{pre}(?&w)!")));
-            p.inlined = Some(LitSpec::str(format!("{pre}(?u:{body})!")));
+            let mut p = PatSpec::regex(LitSpec::str(format!("{pre}(?&w){post}")));
+            p.inlined = Some(LitSpec::str(format!("{pre}(?u:{body}){post}")));
             p.ignore_case = true;
             let sub = crate::spec::SubSpec { name: "w".into(), lit: LitSpec::str(body.clone()), inlined: Some(LitSpec::str(body)) };
             if as_skip {
@@ -787,6 +818,10 @@ pub fn subpattern_defs() -> BoxedStrategy<SubCase> {
             for (i, p) in pats.into_iter().enumerate() {
                 let mut counter = 5 + i * 7;
                 let mut a = with_refs(p, &picks, &defined, &mut counter);
+                // one pattern in six is a reference and nothing else
+                if picks[(i * 5 + 1) % picks.len()] % 6 == 0 {
+                    a = Ast::Ref(defined[(i + picks[0] as usize) % defined.len()].clone());
+                }
                 if count_refs(&a) == 0 {
                     // force one reference at start / middle / end
                     let r = Ast::Ref(defined[i % defined.len()].clone());
@@ -802,6 +837,8 @@ pub fn subpattern_defs() -> BoxedStrategy<SubCase> {
                 let mut ps = PatSpec::regex(LitSpec::str(a.text()));
                 ps.inlined = Some(LitSpec::str(inl.text()));
                 ps.allow_greedy = true;
+                // ignore(case) on a referencing pattern folds the included text like the rest of the pattern
+                ps.ignore_case = picks[(i * 3 + 2) % picks.len()] % 4 == 0;
                 ps.priority = Some(prios[i % prios.len()] + 10 * i);
                 if with_skip && i == 0 {
                     skips.push(ps);
@@ -890,7 +927,7 @@ pub fn callback_defs() -> BoxedStrategy<(DefSpec, Vec<bool>, bool)> {
         2 => def_strategy(GenCfg { utf8: true, unicode: true, looks: false, byte_items: false, flags: false, max_depth: 2 }),
         1 => def_strategy(GenCfg { utf8: false, unicode: false, looks: false, byte_items: true, flags: false, max_depth: 2 }),
     ];
-    (base, vec((any::<u8>(), any::<u32>(), 0u8..3, 0u8..6, prop::bool::weighted(0.85)), 10), vec(any::<bool>(), 8), prop::bool::weighted(0.5))
+    (base, vec((any::<u8>(), any::<u32>(), 0u8..3, 0u8..7, prop::bool::weighted(0.85)), 10), vec(any::<bool>(), 8), prop::bool::weighted(0.5))
         .prop_map(|(mut def, specs, values, error_cb)| {
             // one pattern per variant (the variant kind decides the admissible return types)
             let flat: Vec<PatSpec> = def.variants.drain(..).flatten().collect();
